@@ -556,21 +556,42 @@ def gen_content_types(info):
     if body is None:
         problems.append("fn is_json not found")
     else:
-        flat = re.sub(r"\s+", " ", body)
-        m = re.fullmatch(r" ?content_type\.and_then\(\|val\| val\.to_str\(\)\.ok\(\)\)\.is_some_and\(\|content\| \{ (.*) \}\) ?", flat)
-        if not m:
-            problems.append("is_json: unrecognised shape")
-        else:
-            for term in m.group(1).split("||"):
+        flat = re.sub(r"\s+", " ", body).strip()
+        # shape 1: `content_type.and_then(..to_str..).is_some_and(|content| { content.eq_ignore_ascii_case("..") || … })`
+        m1 = re.fullmatch(r"content_type\.and_then\(\|val\| val\.to_str\(\)\.ok\(\)\)\.is_some_and\(\|content\| \{ (.*) \}\)", flat)
+        # shape 2: `let Some(content) = content_type.and_then(..to_str..) else { return false; }; for x in [ "..", … ] { if content.eq_ignore_ascii_case(x) { return true; } } false`
+        m2 = re.fullmatch(
+            r"let Some\((\w+)\) = content_type\.and_then\(\|val\| val\.to_str\(\)\.ok\(\)\) else \{ return false; \}; "
+            r"for (\w+) in \[ ?(.*?),? ?\] \{ if \1\.eq_ignore_ascii_case\(\2\) \{ return true; \} \} false", flat)
+        if m1:
+            for term in m1.group(1).split("||"):
                 t = re.fullmatch(r' ?content\.eq_ignore_ascii_case\("([^"\\]*)"\) ?', term)
                 if t:
                     types.append(t.group(1))
                 else:
                     problems.append(f"is_json: unrecognised term {term.strip()!r}")
-    # the gate itself: `Method::POST if content_type_is_json(&request) =>`, `Method::POST => unsupported_content_type`, `_ => method_not_allowed`
-    gate_ok = bool(re.search(r"Method::POST if content_type_is_json\(&request\) =>", src)) and bool(
-        re.search(r"Method::POST => response::unsupported_content_type\(\)", src)
-    ) and bool(re.search(r"_ => response::method_not_allowed\(\)", src))
+        elif m2:
+            for term in m2.group(3).split(","):
+                t = re.fullmatch(r' ?"([^"\\]*)" ?', term)
+                if t:
+                    types.append(t.group(1))
+                else:
+                    problems.append(f"is_json: unrecognised array element {term.strip()!r}")
+        else:
+            problems.append("is_json: unrecognised shape")
+            # best effort for the *model* (the correspondence still validates it; `c19_translator_ok`
+            # stays broken): every string literal of the body
+            types = re.findall(r'"([^"\\]*)"', body)
+    # the gate itself, in either spelling; the method test must come before the content-type test
+    fn = find_block(src, r"pub async fn call_with_service<[^{]*\{") or ""
+    fnf = re.sub(r"\s+", " ", fn)
+    gate_match = bool(re.search(r"Method::POST if content_type_is_json\(&request\) =>", fnf)) and bool(
+        re.search(r"Method::POST => response::unsupported_content_type\(\)", fnf)
+    ) and bool(re.search(r"_ => response::method_not_allowed\(\)", fnf))
+    gate_early = bool(re.search(
+        r"^ ?if \*request\.method\(\) != Method::POST \{ return response::method_not_allowed\(\); \} "
+        r"if !content_type_is_json\(&request\) \{ return response::unsupported_content_type\(\); \} ", fnf))
+    gate_ok = gate_match or gate_early
     if not gate_ok:
         problems.append("call_with_service: method/content-type gate not recognised")
     ok = not problems
